@@ -424,3 +424,21 @@ def random_connected_subset(rng, at, size):
         frontier |= adj[x]
         frontier -= cur
     return sorted(cur)
+
+
+def pendant_subset(rng, at, size):
+    """an edge-connected cell subset plus ONE pendant cell that touches it in exactly one vertex and along no interface
+    (its whole outline is one closed interface through a single junction).  Returns the id list or None."""
+    core = set(random_connected_subset(rng, at, size))
+    adj = at.cell_adjacency()
+    cand = []
+    for c, cyc in at.cells.items():
+        if c in core or adj[c] & core:
+            continue
+        shared = {j for j in cyc if any(j in at.cells[d] for d in core)}
+        if len(shared) == 1:
+            cand.append(c)
+    if not cand:
+        return None
+    cand.sort()
+    return sorted(core | {cand[int(rng.integers(len(cand)))]})
